@@ -12,7 +12,7 @@ section nnz
 variable [AddMonoid α] [DecidableEq α]
 
 /-- a well-formed sparse tensor stores exactly the subscripts at which it is non-zero. -/
-theorem Sparse.mem_subs_iff (S : Sparse α) (hS : S.WF) (i : List Nat) :
+theorem Sparse.mem_subs_iff_c01 (S : Sparse α) (hS : S.WF) (i : List Nat) :
     i ∈ S.subs ↔ InBounds S.shape i ∧ S.get i ≠ 0 := by
   constructor
   · intro h
@@ -36,7 +36,7 @@ theorem Sparse.nnz_eq_count (S : Sparse α) (hS : S.WF) :
   apply List.Perm.length_eq
   rw [List.perm_ext_iff_of_nodup hS.nodup ((ML.allSubs_nodup _).filter _)]
   intro i
-  rw [Sparse.mem_subs_iff S hS, List.mem_filter, mem_allSubs]
+  rw [Sparse.mem_subs_iff_c01 S hS, List.mem_filter, mem_allSubs]
   simp
 
 /-- two well-formed sparse tensors of one shape that denote the same array store equally many
@@ -73,7 +73,7 @@ end nnz
 
 /-! ### `to_tenmat` reports -/
 
-theorem numel_split {s r c : List Nat} (hp : isPermOf (r ++ c) s.length = true) :
+theorem numel_split_c01 {s r c : List Nat} (hp : isPermOf (r ++ c) s.length = true) :
     numel (gather s r) * numel (gather s c) = numel s := by
   rw [← numel_append, ← gather_append, numel_gather hp]
 
@@ -97,7 +97,7 @@ theorem tenmat_reports [Zero α] (T : Dense α) (hT : T.WF) (rd cd : Option (Lis
     have hM := (Except.ok.inj h).symm
     subst hM
     have hn : numel [numel (gather T.shape r), numel (gather T.shape c)] = numel T.shape := by
-      rw [numel_pair, numel_split hp]
+      rw [numel_pair_c01, numel_split_c01 hp]
     refine ⟨r, c, hg, hp, rfl, rfl, rfl, tenmatOf_wf T r c hp, rfl, hn, ?_⟩
     intro hpos
     have h0 : (numel [numel (gather T.shape r), numel (gather T.shape c)] == 0) = false := by
@@ -302,7 +302,7 @@ variable {α : Type}
 
 /-! ### the Khatri-Rao form of the Kruskal matricization -/
 
-theorem map_length_gatherD (fs : List (Mat α)) (r : List Nat) :
+theorem map_length_gatherD_c01 (fs : List (Mat α)) (r : List Nat) :
     (gatherD fs r []).map List.length = gather (fs.map List.length) r := by
   unfold gatherD gather
   rw [List.map_map]
@@ -311,7 +311,7 @@ theorem map_length_gatherD (fs : List (Mat α)) (r : List Nat) :
   simp only [Function.comp, List.getD_eq_getElem?_getD, List.getElem?_map]
   cases fs[k]? <;> rfl
 
-theorem zipWith_gatherD_gather [Zero α] (fs : List (Mat α)) (i r : List Nat) (q : Nat) :
+theorem zipWith_gatherD_gather_c01 [Zero α] (fs : List (Mat α)) (i r : List Nat) (q : Nat) :
     List.zipWith (fun (M : Mat α) ik => M.get ik q) (gatherD fs r []) (gather i r) =
       r.map fun k => (fs.getD k []).get (i.getD k 0) q := by
   unfold gatherD gather
@@ -319,7 +319,7 @@ theorem zipWith_gatherD_gather [Zero α] (fs : List (Mat α)) (i r : List Nat) (
   | nil => rfl
   | cons k r ih => simp [ih]
 
-theorem zipWith_eq_map_range [Zero α] (fs : List (Mat α)) (i : List Nat) (q : Nat)
+theorem zipWith_get_eq_map_range_c01 [Zero α] (fs : List (Mat α)) (i : List Nat) (q : Nat)
     (hl : i.length = fs.length) :
     List.zipWith (fun (M : Mat α) ik => M.get ik q) fs i =
       (List.range fs.length).map fun k => (fs.getD k []).get (i.getD k 0) q := by
@@ -368,14 +368,14 @@ theorem kruskal_tenmat_khatrirao [CommSemiring α] (K : Ktensor α) (hK : K.WF) 
   have hib : ∀ (l : List Nat), (∀ k ∈ l, k < K.factors.length) →
       InBounds ((gatherD K.factors l []).map List.length) (gather i l) := by
     intro l hl
-    rw [map_length_gatherD]
+    rw [map_length_gatherD_c01]
     exact hi.gather (fun k hk => by rw [hsl]; exact hl k hk)
   obtain ⟨L, hL, hLlen, hLent⟩ := khatrirao_rev_spec (gatherD K.factors r []) K.weights.length (gather i r)
     (hne r hr) (hmem r hrl) (hib r hrl)
   obtain ⟨Rm, hRm, hRlen, hRent⟩ := khatrirao_rev_spec (gatherD K.factors c []) K.weights.length (gather i c)
     (hne c hc) (hmem c hcl) (hib c hcl)
   obtain ⟨D, M, _, _, hM, _, _, _, _, _, hget⟩ := kruskal_tenmat_entry K hK hN r c hp i hi
-  rw [map_length_gatherD] at hLlen hRlen hLent hRent
+  rw [map_length_gatherD_c01] at hLlen hRlen hLent hRent
   refine ⟨L, Rm, M, hL, hRm, hM, hLlen, hRlen, ?_⟩
   rw [hget]
   unfold Ktensor.get
@@ -389,9 +389,9 @@ theorem kruskal_tenmat_khatrirao [CommSemiring α] (K : Ktensor α) (hK : K.WF) 
   show _ = L.get (sub2ind (gather K.shape r) (gather i r)) q * Rm.get (sub2ind (gather K.shape c) (gather i c)) q
   have e1 : gather K.shape r = gather (K.factors.map List.length) r := rfl
   have e2 : gather K.shape c = gather (K.factors.map List.length) c := rfl
-  rw [e1, e2, hL', hR', zipWith_gatherD_gather, zipWith_gatherD_gather]
+  rw [e1, e2, hL', hR', zipWith_gatherD_gather_c01, zipWith_gatherD_gather_c01]
   unfold Ktensor.comp
-  rw [zipWith_eq_map_range K.factors i q (by rw [hi.length_eq, hsl])]
+  rw [zipWith_get_eq_map_range_c01 K.factors i q (by rw [hi.length_eq, hsl])]
   have hperm := isPermOf_perm hp
   rw [(hperm.map _).prod_eq, List.map_append, prod_append']
 
@@ -472,7 +472,7 @@ theorem kruskal_krTenmat [CommSemiring α] (K : Ktensor α) (hK : K.WF) (r c : L
   symm
   refine Dense.ext_get hMW.data ?_ (by rw [hMs, hLlen, hRlen]) ?_
   · show (Rm.flatMap fun rrow => L.map fun lrow => _).length = numel [L.length, Rm.length]
-    rw [length_flatMap_map, numel_pair, Nat.mul_comm]
+    rw [length_flatMap_map, numel_pair_c01, Nat.mul_comm]
   · intro u hu
     rw [hMs] at hu
     match u, hu with
@@ -496,7 +496,7 @@ theorem kruskal_krTenmat [CommSemiring α] (K : Ktensor α) (hK : K.WF) (r c : L
       rw [hget]
       have ha : a < L'.length := by rw [hLlen]; exact hab.1
       have hb : b < Rm'.length := by rw [hRlen]; exact hab.2
-      simp only [Dense.get, sub2ind_pair]
+      simp only [Dense.get, sub2ind_pair_c01]
       rw [show a + L'.length * b = b * L'.length + a by rw [Nat.mul_comm]; omega,
         List.getD_eq_getElem?_getD, flatMap_map_getElem? Rm' L' _ b a hb ha, Option.getD_some]
       congr 1
@@ -512,7 +512,7 @@ variable {α : Type}
 /-! ### what is refused -/
 
 /-- the modes named in the arguments all appear in the pair `gather_wrap_dims` returns. -/
-theorem wrap_mem (n : Nat) (rd cd : Option (List Nat)) (cyc : Option Cyclic) (r c : List Nat)
+theorem gatherWrapDims_mem (n : Nat) (rd cd : Option (List Nat)) (cyc : Option Cyclic) (r c : List Nat)
     (h : gatherWrapDims n rd cd cyc = .ok (r, c)) :
     (∀ l, rd = some l → ∀ x ∈ l, x ∈ r ++ c) ∧ (∀ l, cd = some l → ∀ x ∈ l, x ∈ r ++ c) := by
   unfold gatherWrapDims at h
@@ -559,17 +559,17 @@ theorem splitValid_iff_perm (n : Nat) (rd cd : Option (List Nat)) (cyc : Option 
   constructor
   · rintro ⟨_, _, h⟩; exact h
   · rintro ⟨r, c, hg, hp⟩
-    obtain ⟨h1, h2⟩ := wrap_mem n rd cd cyc r c hg
+    obtain ⟨h1, h2⟩ := gatherWrapDims_mem n rd cd cyc r c hg
     refine ⟨?_, ?_, r, c, hg, hp⟩
     · cases rd with
       | none => rfl
       | some l =>
-        simp only [inR, List.all_eq_true, decide_eq_true_eq]
+        simp only [inRangeOpt, List.all_eq_true, decide_eq_true_eq]
         exact fun x hx => isPermOf_lt_of_mem hp (h1 l rfl x hx)
     · cases cd with
       | none => rfl
       | some l =>
-        simp only [inR, List.all_eq_true, decide_eq_true_eq]
+        simp only [inRangeOpt, List.all_eq_true, decide_eq_true_eq]
         exact fun x hx => isPermOf_lt_of_mem hp (h2 l rfl x hx)
 
 section rejects
